@@ -59,22 +59,22 @@ PROPS = {
             "not_covered": ["not covered: the text of the error message"]},
     "C08": {"units": ["ACT", "BLD", "RELAY", "CLN", "CFG"], "level": "proof", "assume": ACTORS,
             "not_covered": ["not covered: 'at least once' is C04's liveness"]},
-    "C09": {"units": ["CFG", "CLN"], "level": "proof", "assume": CFGA,
+    "C09": {"units": ["CFG", "CLN", "DOM"], "level": "proof", "assume": CFGA,
             "not_covered": ["not covered: YAML -> yaml::Project (A-yaml); str::split behind reference parsing (DOM unit, three assumed facts); termination of the import loader add_project (depends on the file system being finite; A-yaml)"]},
     "C10": {"units": ["BLD", "ACT", "RELAY", "CLN"], "level": "proof", "assume": ACTORS,
             "not_covered": ["not covered: any latency bound; grandchildren of the shell; the hand-off from the signal handler task"]},
     "C11": {"units": ["ACT", "RELAY"], "level": "proof", "assume": ACTORS},
     "C12": {"units": ["CLN", "INC"], "level": "proof", "assume": ["A-hash", "A-std", "A-fs", "A-clap", "R1"],
             "not_covered": ["not covered: what remove_dir_all and the directory walk do with symbolic links (A-fs); clap argument parsing"]},
-    "C13": {"units": ["CFG", "INC"], "level": "proof", "assume": CFGA + ["A-fs", "A-codec", "A-cmd"],
+    "C13": {"units": ["CFG", "INC", "WCH"], "level": "proof", "assume": CFGA + ["A-fs", "A-codec", "A-cmd"],
             "not_covered": ["not covered: Path::join itself (an uninterpreted function of directory and relative text); the regex that recognises X.output entries (A-yaml)"]},
     "C14": {"units": ["CFG", "CLN"], "level": "proof", "assume": CFGA,
             "not_covered": ["not applicable within C14: totality and strictness of parsing (serde_yaml, derive attributes, regexes) - third-party parser code with no contract within reach; only the uniqueness / import-name / injectivity half is proved"]},
     "C15": {"units": ["FS", "INC", "CLN", "WCH"], "level": "proof", "assume": ["A-std", "A-hash", "A-fs", "A-walkdir", "A-str", "A-adapters", "R1"],
             "not_covered": ["not covered: byte-level UTF-8 decoding of names (to_string_lossy / to_str are assumed total functions), symlink loops, the order of the listing, notify itself (C16)"]},
-    "C16": {"units": ["WCH"], "level": "proof", "assume": ["A-std", "A-chan", "A-notify", "A-str", "A-all"],
+    "C16": {"units": ["WCH", "RELAY"], "level": "proof", "assume": ["A-std", "A-chan", "A-notify", "A-str", "A-all"],
             "not_covered": ["not covered: notify itself, recursion into directories created later; the byte-level UTF-8 decoding behind to_string_lossy (assumed total)"]},
-    "C18": {"units": ["INC", "CFG"], "level": "proof", "assume": INCA + ["A-yaml"],
+    "C18": {"units": ["INC", "CFG", "DOM"], "level": "proof", "assume": INCA + ["A-yaml"],
             "not_covered": ["not covered: injectivity of the state-file name formatting (string reasoning); that dunce::canonicalize returns one name per directory (assumed contract of canonicalize_dir, whose text is fingerprinted)"]},
     "C19": {"units": ["CFG", "DOM", "CLN"], "level": "proof", "assume": CFGA + ["A-str"],
             "not_covered": ["not covered: list_all_available_target_names (iterator chains over string maps); str::split itself (assumed with its three defining facts: at least one piece, joining gives the text back, no piece contains the separator)"]},
